@@ -1,4 +1,4 @@
-CONSTANTS Scope = "small" Mutant = "none"
+CONSTANTS Scope = "small" Mutant = "none" DepEnumOffered = FALSE
 SPECIFICATION TSpec
 CONSTRAINT Progress
 INVARIANT Inv_ExactlyOneCall
